@@ -28,9 +28,25 @@ fn main() {
     let n: usize = args[3].parse().expect("n");
     let tier = args[4].as_str();
 
-    // panics are outcomes, not noise
-    std::panic::set_hook(Box::new(|_| {}));
+    // panics are outcomes, not noise: engines catch the ones they expect; remember the last message for the rest
+    std::panic::set_hook(Box::new(|info| {
+        if let Ok(mut m) = LAST_PANIC.lock() {
+            *m = info.to_string();
+        }
+    }));
 
+    let res = std::panic::catch_unwind(|| run_engine(engine, seed, n, tier));
+    if res.is_err() {
+        // the implementation panicked where the harness did not expect it: the run is over
+        let msg = LAST_PANIC.lock().map(|m| m.clone()).unwrap_or_default();
+        eprintln!("ENGINE-PANIC engine={engine} seed={seed} n={n} tier={tier}: {}", msg.replace('\n', " "));
+        std::process::exit(3);
+    }
+}
+
+static LAST_PANIC: std::sync::Mutex<String> = std::sync::Mutex::new(String::new());
+
+fn run_engine(engine: &str, seed: u64, n: usize, tier: &str) {
     match engine {
         "prefix" => e_prefix::run(seed, n, tier),
         "convert" => e_convert::run(seed, n, tier),
